@@ -228,6 +228,21 @@ theorem flow_mov (K : Ctx w) (hsafe : K.safe = false) {fr : Frame} {c : Bc.Cfg w
     ∃ n s', steps K.cfg n s = some s' ∧ Inv K fr c' s' ∧ Rel c' (view s') :=
   flow_mov_unchecked K hsafe hi hsh hinv hrel hstep
 
+/-- `mov` WITH bounds check: the probe (`lea; sub; [sar;] cmp; jb rel8`) and, when the probe cell is outside
+the allocation, the body (`hpbf_context_extend(cxt, 0, 1)` between register saving and restoring, then the
+tape pointer is reloaded from the new buffer). `Bnd s`: the allocation is below `2^40` cells, so the 64-bit
+index arithmetic does not wrap. -/
+theorem flow_mov_safe (K : Ctx w) (hsafe : K.safe = true) {fr : Frame} {c : Bc.Cfg w} {s : PState w}
+    {shift : Int} (hi : K.p.insts[c.pc]? = some (.mov shift))
+    (hsh : -2147483648 ≤ shift ∧ shift < 2147483648)
+    (hwin : -2147483648 < K.p.minAcc ∧ K.p.minAcc < 2147483648 ∧ -2147483648 < K.p.maxAcc ∧
+      K.p.maxAcc < 2147483648)
+    (hbnd : Bnd s) (hinv : Inv K fr c s) (hrel : Rel c (view s))
+    {c' : Bc.Cfg w} (hstep : Bc.step K.p K.limited c = .next c') :
+    ∃ lv n s', K.p.live[c.pc]? = some lv ∧ steps K.cfg n s = some s' ∧ Inv K fr c' s' ∧
+      RelOn (fun t => lv.testBit t = true) c' (view s') :=
+  flow_mov_checked K hsafe hi hsh hwin hbnd hinv hrel hstep
+
 /-- `copy` / `add` / `sub` / `mul` on the program machine. -/
 theorem flow_arith_instr (K : Ctx w) {fr : Frame} {c : Bc.Cfg w} {s : PState w} {ins : Bc.Instr w}
     (hi : K.p.insts[c.pc]? = some ins) (hok : ArithOk ins)
@@ -289,33 +304,36 @@ theorem flow_init_state (K : Ctx w) (h0 : K.p.minAcc ≤ 0 ∧ 0 ≤ K.p.maxAcc)
   initState_entry K h0 hr buf0 rsp0 ra hrsp budget hb env
 
 example (K : Ctx w) : Good K ↔
-    (BcWf.check K.p 11 = true ∧ (-2147483648 ≤ K.p.minAcc ∧ K.p.maxAcc < 2147483648) ∧
+    (BcWf.check K.p 11 = true ∧ (-2147483648 < K.p.minAcc ∧ K.p.maxAcc < 2147483648) ∧
      alignedTemps K.p.temps * 8 < 2147483648 ∧
-     (∀ (i : Nat) (sh : Int), K.p.insts[i]? = some (Bc.Instr.mov sh) → -2147483648 ≤ sh ∧ sh < 2147483648) ∧
-     (K.safe = false ∨ ∀ (i : Nat) (sh : Int), K.p.insts[i]? ≠ some (Bc.Instr.mov sh))) :=
-  ⟨fun h => ⟨h.check, h.win, h.temps, h.shift, h.unchecked⟩, fun ⟨a, b, c, d, e⟩ => ⟨a, b, c, d, e⟩⟩
+     (∀ (i : Nat) (sh : Int), K.p.insts[i]? = some (Bc.Instr.mov sh) → -2147483648 ≤ sh ∧ sh < 2147483648)) :=
+  ⟨fun h => ⟨h.check, h.win, h.temps, h.shift⟩, fun ⟨a, b, c, d⟩ => ⟨a, b, c, d⟩⟩
+example (s : PState w) : Bnd s ↔
+    (s.size.toNat < 2 ^ 40 ∧ -(2 ^ 40) < s.lptr - s.base ∧ s.lptr - s.base < 2 ^ 40) := Iff.rfl
+example (K : Ctx w) (s : PState w) : NoOOM K s ↔
+    (K.safe = true → ∀ n s', steps K.cfg n s = some s' → Bnd s') := Iff.rfl
 
 /-- `prog_simulation`: every bytecode step from a related state is matched by finitely many machine steps
 to a related state (`.next`), or by a return of the function with the result the Rust expects (`.halt`: 1,
 `.stop` / `.interrupted`: 0). `.bad` does not occur for checked programs (C11). -/
 theorem prog_simulation (K : Ctx w) (G : Good K) {fr : Frame} (h7 : fr.saved.length = 7) {c : Bc.Cfg w}
-    {s : PState w} (hsh : Sh K fr c s) :
+    {s : PState w} (hbnd : K.safe = true → Bnd s) (hsh : Sh K fr c s) :
     match Bc.step K.p K.limited c with
     | .next c' => ∃ n s', steps K.cfg n s = some s' ∧ Sh K fr c' s'
     | .halt c' => Exits K fr s 1 c' (fun s' => s'.budget.toNat = c'.budget)
     | .stop c' => Exits K fr s 0 c' (fun s' => s'.budget.toNat = c'.budget)
     | .interrupted c' => Exits K fr s 0 c' (fun s' => s'.budget.toNat < 2 ∧ c'.budget = 0)
-    | .bad _ => True := prog_step K G h7 hsh
+    | .bad _ => True := prog_step K G h7 hbnd hsh
 
 /-- Runs from a related state. -/
 theorem prog_run_from (K : Ctx w) (G : Good K) {fr : Frame} (h7 : fr.saved.length = 7) (fuel : Nat)
-    {c : Bc.Cfg w} {s : PState w} (hsh : Sh K fr c s) :
+    {c : Bc.Cfg w} {s : PState w} (hoom : NoOOM K s) (hsh : Sh K fr c s) :
     match Bc.runCfg K.p K.limited fuel c with
     | .done c' => Exits K fr s 1 c' (fun s' => s'.budget.toNat = c'.budget)
     | .stopped c' => Exits K fr s 0 c' (fun s' => s'.budget.toNat = c'.budget)
     | .interrupted c' => Exits K fr s 0 c' (fun s' => s'.budget.toNat < 2 ∧ c'.budget = 0)
     | .bad _ => True
-    | .outOfFuel c' => ∃ n s', steps K.cfg n s = some s' ∧ Sh K fr c' s' := prog_runCfg K G h7 fuel hsh
+    | .outOfFuel c' => ∃ n s', steps K.cfg n s = some s' ∧ Sh K fr c' s' := prog_runCfg K G h7 fuel hoom hsh
 
 /-- `prog_run`: the compiled function, called as `enter_jit_code` calls it, against `Bc.run` (the threaded
 interpreter from zeroed temporaries): finished runs return with the same event trace (and environment,
@@ -326,12 +344,13 @@ theorem prog_run (p : Bc.Program w) (limited safe : Bool) (cfg : Cfg) {code : Li
     (hsmall : sizeAll code < 2 ^ 31)
     (hIO : cfg.aI ≠ cfg.aO) (hEI : cfg.aE ≠ cfg.aI) (hEO : cfg.aE ≠ cfg.aO)
     (hchk : BcWf.check p 11 = true)
-    (hwin : -2147483648 ≤ p.minAcc ∧ p.maxAcc < 2147483648)
+    (hwin : -2147483648 < p.minAcc ∧ p.maxAcc < 2147483648)
     (htemps : alignedTemps p.temps * 8 < 2147483648)
     (hshift : ∀ (i : Nat) (sh : Int), p.insts[i]? = some (Bc.Instr.mov sh) → -2147483648 ≤ sh ∧ sh < 2147483648)
-    (hmov : safe = false ∨ ∀ (i : Nat) (sh : Int), p.insts[i]? ≠ some (Bc.Instr.mov sh))
     (buf0 rsp0 ra : BitVec 64) (hrsp : rsp0.toNat % 16 = 8)
-    (budget : Nat) (hb : budget < 2 ^ 64) (hlim : (limited && budget == 0) = false) (env : Env) (fuel : Nat) :
+    (budget : Nat) (hb : budget < 2 ^ 64) (hlim : (limited && budget == 0) = false) (env : Env)
+    (hoom : safe = true → ∀ n s', steps cfg n (initState (w := w) cfg buf0 rsp0 ra p.minAcc p.maxAcc budget env)
+      = some s' → Bnd s') (fuel : Nat) :
     ∃ K : Ctx w, K.p = p ∧ K.cfg = cfg ∧ K.limited = limited ∧
       let s0 : PState w := initState cfg buf0 rsp0 ra p.minAcc p.maxAcc budget env
       match Bc.run p limited budget fuel env with
@@ -340,8 +359,8 @@ theorem prog_run (p : Bc.Program w) (limited safe : Bool) (cfg : Cfg) {code : Li
       | .interrupted c' => Returns K s0 0 c' (fun s' => s'.budget.toNat < 2 ∧ c'.budget = 0)
       | .bad _ => False
       | .outOfFuel c' => ∃ n s', steps cfg n s0 = some s' ∧ s'.trace = c'.st.trace ∧ s'.env = c'.st.env :=
-  prog_run_compiled p limited safe cfg hcomp hfetch hsmall hIO hEI hEO hchk hwin htemps hshift hmov
-    buf0 rsp0 ra hrsp budget hb hlim env fuel
+  prog_run_compiled p limited safe cfg hcomp hfetch hsmall hIO hEI hEO hchk hwin htemps hshift
+    buf0 rsp0 ra hrsp budget hb hlim env hoom fuel
 
 /-! ## Non-vacuity -/
 
@@ -364,7 +383,7 @@ theorem exFlow_no_mov (i : Nat) (sh : Int) : exFlow.insts[i]? ≠ some (Bc.Instr
 def exEnv : Env := { input := some [.byte 3], sink := true, outOk := none }
 
 example : BcWf.check exFlow 11 = true := by decide +kernel
-example : ((compileX86 8 exFlow true true 0x7f0000001000 0x7f0000002000 0x7f0000003000).map
+example : ((compileX86 8 exFlow true false 0x7f0000001000 0x7f0000002000 0x7f0000003000).map
     (fun code => (code.length, sizeAll code))) = some (50, 182) := by decide +kernel
 /-- "The run finished normally with this trace and budget." -/
 def doneWith (o : Bc.Outcome 8) (tr : List Ev) (b : Nat) : Bool :=
@@ -376,32 +395,32 @@ def doneWith (o : Bc.Outcome 8) (tr : List Ev) (b : Nat) : Bool :=
 example : doneWith (Bc.run exFlow true 10 100 exEnv) [.out 1, .out 2, .out 3, .inp 3] 6 = true := by
   decide +kernel
 
-/-- Every hypothesis of `prog_run` holds for this program (limited mode, bounds-checked code generation,
-budget 10), hence the compiled function returns 1 after finitely many machine steps with exactly the event
+/-- Every hypothesis of `prog_run` holds for this program (limited mode, code generation without bounds
+checks so that the `NoOOM` hypothesis is void, budget 10), hence the compiled function returns 1 after finitely many machine steps with exactly the event
 trace of the bytecode run and 6 in the budget cell, all callee-saved registers restored. -/
-example : ∃ code, compileX86 8 exFlow true true 0x7f0000001000 0x7f0000002000 0x7f0000003000 = some code ∧
+example : ∃ code, compileX86 8 exFlow true false 0x7f0000001000 0x7f0000002000 0x7f0000003000 = some code ∧
     ∃ n, ∃ s' : PState 8, run (exCfg code) n
         (initState (exCfg code) 0x560000000000 0x7ffd00000ff8 0x555500001234 0 2 10 exEnv) = .ret s' ∧
       s'.regs.rax = 1 ∧ s'.trace = [.out 1, .out 2, .out 3, .inp 3] ∧ s'.budget.toNat = 6 ∧
       s'.regs.rsp = 0x7ffd00000ff8 + 8 ∧ s'.regs.rbx = 0xBAD0BAD0BAD00000 := by
-  cases hc : compileX86 8 exFlow true true 0x7f0000001000 0x7f0000002000 0x7f0000003000 with
+  cases hc : compileX86 8 exFlow true false 0x7f0000001000 0x7f0000002000 0x7f0000003000 with
   | none =>
-    have : (compileX86 8 exFlow true true 0x7f0000001000 0x7f0000002000 0x7f0000003000).isSome = true := by
+    have : (compileX86 8 exFlow true false 0x7f0000001000 0x7f0000002000 0x7f0000003000).isSome = true := by
       decide +kernel
     rw [hc] at this; cases this
   | some code =>
     refine ⟨code, rfl, ?_⟩
     have hsmall : sizeAll code < 2 ^ 31 := by
-      have : ((compileX86 8 exFlow true true 0x7f0000001000 0x7f0000002000 0x7f0000003000).all
+      have : ((compileX86 8 exFlow true false 0x7f0000001000 0x7f0000002000 0x7f0000003000).all
           (fun c => decide (sizeAll c < 2 ^ 31))) = true := by decide +kernel
       rw [hc] at this; simpa using this
-    obtain ⟨K, hp, hcfg, hlim, hrun⟩ := prog_run exFlow true true (exCfg code) hc rfl hsmall
+    obtain ⟨K, hp, hcfg, hlim, hrun⟩ := prog_run exFlow true false (exCfg code) hc rfl hsmall
       (by show (0x7f0000002000 : BitVec 64) ≠ 0x7f0000003000; decide)
       (by show (0x7f0000001000 : BitVec 64) ≠ 0x7f0000002000; decide)
       (by show (0x7f0000001000 : BitVec 64) ≠ 0x7f0000003000; decide)
       (by decide +kernel) (by decide) (by decide)
-      (fun i sh h => absurd h (exFlow_no_mov i sh)) (Or.inr exFlow_no_mov)
-      0x560000000000 0x7ffd00000ff8 0x555500001234 (by decide) 10 (by decide) (by decide) exEnv 100
+      (fun i sh h => absurd h (exFlow_no_mov i sh))
+      0x560000000000 0x7ffd00000ff8 0x555500001234 (by decide) 10 (by decide) (by decide) exEnv (fun h => by cases h) 100
     have hb : doneWith (Bc.run exFlow true 10 100 exEnv) [.out 1, .out 2, .out 3, .inp 3] 6 = true := by
       decide +kernel
     simp only at hrun
